@@ -237,13 +237,15 @@ DefOut(lk, shape, d) ==
                 IF shape \in PullShapes THEN P
                 ELSE IF shape = "method" THEN P \cup X ELSE X
            [] d.cls = "err_param" /\ shape = "export" -> X
+           [] d.cls = "two" -> {"CIMError"} \cup X   \* 2nd CODE may be bad
            [] OTHER -> {"CIMError"}
     [] d.k = "v_num" ->
          IF meth THEN NumCimvalue(lk, d.ty, d.cls)
          ELSE IF d.site = "keyuntyped" THEN NumUntyped(d.cls)
          ELSE NumUnpack(lk, d.ty, d.cls)
     [] d.k = "v_bool" ->
-         IF meth THEN P
+         IF meth    \* cimvalue(): bool(text); since _wire_value: unpack_boolean
+         THEN IF d.cls \in {"yes", "one"} THEN P \cup X ELSE P
          ELSE CASE d.cls \in {"true", "upper", "ws"} -> P
                 [] d.cls \in {"empty", "wsonly"} ->
                      IF d.site = "key" THEN X ELSE P
